@@ -163,7 +163,7 @@ pub fn sync_fault_then_growth(db: &jammdb::DB) -> Result<(), String> {
 }
 
 #[allow(clippy::too_many_arguments)]
-fn child_body(path: &str, i: usize, n: usize, init_fault: bool, second_fd: bool, sync_fault_grow: bool, stat_fault: bool, grow_plain: bool, direct: bool) -> ! {
+fn child_body(path: &str, i: usize, n: usize, init_fault: bool, second_fd: bool, sync_fault_grow: bool, stat_fault: bool, grow_plain: bool, direct: bool, with_helper: bool) -> ! {
     let path = path.to_string();
     let dir = std::path::Path::new(&path).parent().unwrap().to_string_lossy().to_string();
     iosim::set_track_prefix(&dir);
@@ -252,9 +252,38 @@ fn child_body(path: &str, i: usize, n: usize, init_fault: bool, second_fd: bool,
         say("P holding");
         wait_go();
     }
+    let mut helper_proc = None;
+    if with_helper {
+        // an unrelated program started while the database is open (it dies with this process)
+        use std::os::unix::process::CommandExt;
+        let mut cmd = std::process::Command::new("sleep");
+        cmd.arg("600").stdin(std::process::Stdio::null()).stdout(std::process::Stdio::null()).stderr(std::process::Stdio::null());
+        unsafe {
+            cmd.pre_exec(|| {
+                libc::prctl(libc::PR_SET_PDEATHSIG, libc::SIGKILL);
+                // the pipes to the exploring process are this harness's, not the application's
+                libc::close(CHILD_IN.load(std::sync::atomic::Ordering::Relaxed));
+                libc::close(CHILD_OUT.load(std::sync::atomic::Ordering::Relaxed));
+                Ok(())
+            });
+        }
+        match cmd.spawn() {
+            Ok(c) => helper_proc = Some(c),
+            Err(e) => say(&format!("I err cannot start the helper program: {}", e)),
+        }
+    }
     say("I leaving");
     drop(db);
     say("I closed");
+    if with_helper {
+        // the process lives on for a while without any handle: whoever waits must get in now
+        say("P after-close");
+        wait_go();
+        if let Some(mut c) = helper_proc {
+            let _ = c.kill();
+            let _ = c.wait();
+        }
+    }
     unsafe { libc::_exit(0) };
 }
 
@@ -271,6 +300,8 @@ enum St {
 }
 
 struct Proc {
+    /// has been released into a lock request at least once (so it may hold the lock)
+    attempted: bool,
     pid: i32,
     rfd: i32,
     wfd: i32,
@@ -324,6 +355,7 @@ pub struct PCase {
     pub grow_plain: Option<usize>,
     pub direct: Option<usize>,
     pub hardlink: bool,
+    pub helper: bool,
 }
 
 #[derive(Default)]
@@ -338,6 +370,7 @@ struct Obs {
     interrupted: Vec<usize>,
     released: bool,
     protocol: Vec<String>,
+    stale_lock: Option<String>,
 }
 
 fn handle_info(o: &mut Obs, i: usize, line: &str) {
@@ -376,6 +409,11 @@ fn advance(procs: &mut [Proc], i: usize, o: &mut Obs, timeout_ms: i32) {
                     return;
                 } else if l == "B" {
                     procs[i].st = St::Blocked;
+                    // the kernel says the lock is taken: somebody must be able to hold it
+                    let holder_possible = (0..procs.len()).any(|j| j != i && procs[j].attempted && !o.closed.contains(&j));
+                    if !holder_possible && o.stale_lock.is_none() {
+                        o.stale_lock = Some(format!("opener {} finds the lock taken although every other opener has closed its handle or has not asked for the lock yet (closed: {:?})", i, o.closed));
+                    }
                     return;
                 } else if l.starts_with("I ") {
                     handle_info(o, i, &l);
@@ -416,7 +454,7 @@ fn reap(procs: &mut [Proc]) {
 
 /// forks one opener; the child never returns
 #[allow(clippy::too_many_arguments)]
-fn spawn_opener(path: &str, i: usize, n: usize, init_fault: bool, second_fd: bool, sync_fault_grow: bool, stat_fault: bool, grow_plain: bool, direct: bool) -> Result<Proc, String> {
+fn spawn_opener(path: &str, i: usize, n: usize, init_fault: bool, second_fd: bool, sync_fault_grow: bool, stat_fault: bool, grow_plain: bool, direct: bool, helper: bool) -> Result<Proc, String> {
     let mut to_child = [0i32; 2];
     let mut from_child = [0i32; 2];
     unsafe {
@@ -437,11 +475,11 @@ fn spawn_opener(path: &str, i: usize, n: usize, init_fault: bool, second_fd: boo
             }
             CHILD_IN.store(to_child[0], std::sync::atomic::Ordering::Relaxed);
             CHILD_OUT.store(from_child[1], std::sync::atomic::Ordering::Relaxed);
-            child_body(path, i, n, init_fault, second_fd, sync_fault_grow, stat_fault, grow_plain, direct);
+            child_body(path, i, n, init_fault, second_fd, sync_fault_grow, stat_fault, grow_plain, direct, helper);
         }
         libc::syscall(libc::SYS_close, to_child[0]);
         libc::syscall(libc::SYS_close, from_child[1]);
-        Ok(Proc { pid, rfd: from_child[0], wfd: to_child[1], buf: vec![], st: St::Silent })
+        Ok(Proc { attempted: false, pid, rfd: from_child[0], wfd: to_child[1], buf: vec![], st: St::Silent })
     }
 }
 
@@ -470,7 +508,7 @@ pub fn run_one(case: &PCase, path: &str, prefix: &[u8]) -> (ExecResult, Vec<Judg
     let mut procs: Vec<Proc> = vec![];
     for i in 0..n {
         let path = if case.hardlink && i > 0 { link.as_str() } else { path };
-        match spawn_opener(path, i, n, case.init_fault == Some(i), case.second_fd, case.sync_fault_grow == Some(i), case.stat_fault == Some(i), case.grow_plain == Some(i), case.direct == Some(i)) {
+        match spawn_opener(path, i, n, case.init_fault == Some(i), case.second_fd, case.sync_fault_grow == Some(i), case.stat_fault == Some(i), case.grow_plain == Some(i), case.direct == Some(i), case.helper) {
             Ok(p) => procs.push(p),
             Err(e) => {
                 reap(&mut procs);
@@ -546,6 +584,9 @@ pub fn run_one(case: &PCase, path: &str, prefix: &[u8]) -> (ExecResult, Vec<Judg
             diverged = Some("more than 5000 points in one process-level execution".into());
             break;
         }
+        if kind.starts_with("flock") {
+            procs[t].attempted = true;
+        }
         go(&mut procs[t]);
         advance(&mut procs, t, &mut o, SILENT_MS);
         if procs[t].st == St::Silent {
@@ -559,6 +600,9 @@ pub fn run_one(case: &PCase, path: &str, prefix: &[u8]) -> (ExecResult, Vec<Judg
     let mut js = vec![];
     if let Some(d) = &deadlock {
         js.push(Judgement { class: "deadlock".into(), detail: d.clone() });
+    }
+    if let Some(m) = &o.stale_lock {
+        js.push(Judgement { class: "lock_outlives_handle".into(), detail: m.clone() });
     }
     for m in &o.protocol {
         js.push(Judgement { class: "opener_error".into(), detail: m.clone() });
@@ -631,7 +675,7 @@ pub fn run_one(case: &PCase, path: &str, prefix: &[u8]) -> (ExecResult, Vec<Judg
 pub fn debug_run(args: &[String]) {
     let scratch = crate::report::scratch_dir();
     let path = format!("{}/c13p-debug.db", scratch);
-    let case = PCase { openers: args[0].parse().unwrap(), file_exists: args[1] == "1", init_fault: None, second_fd: args.get(3).map(|s| s == "1").unwrap_or(false), sync_fault_grow: None, stat_fault: None, grow_plain: None, direct: None, hardlink: false };
+    let case = PCase { openers: args[0].parse().unwrap(), file_exists: args[1] == "1", init_fault: None, second_fd: args.get(3).map(|s| s == "1").unwrap_or(false), sync_fault_grow: None, stat_fault: None, grow_plain: None, direct: None, hardlink: false, helper: false };
     let prefix: Vec<u8> = args.get(2).map(|s| s.split(',').filter(|x| !x.is_empty()).map(|x| x.parse().unwrap()).collect()).unwrap_or_default();
     let t0 = std::time::Instant::now();
     let (res, js, outcome) = run_one(&case, &path, &prefix);
